@@ -133,6 +133,14 @@ structure Span where
   hi : Int
   deriving DecidableEq, Repr, Inhabited
 
+structure Node where
+  key : Int
+  nxt : Int
+  deriving DecidableEq, Repr, Inhabited
+
+/-- `_mk2(tag, a, b)`: the tag is not passed to the model -/
+def mk2 (a b : Int) : Int := a * 2 + b
+
 /-- the interface `Scaler` of the corpus: a record of its virtual members -/
 structure Scaler where
   scale : Int → Int
